@@ -11,5 +11,6 @@ CONSTANTS
 INVARIANT TypeOK
 INVARIANT Symmetric
 INVARIANT ZeroDiagonal
+INVARIANT ClassesSymmetric
 INVARIANT ShortcutSound
 INVARIANT ShortcutKeepsComputed
